@@ -33,6 +33,7 @@ func collect(repo string, f *facts) {
 	e2eFacts(f)
 	flushFacts(f)
 	distFacts(f)
+	poolFacts(f)
 }
 
 // ---- C16: Must… / panic sites in constructors ----
@@ -560,6 +561,16 @@ func frameFacts(f *facts) {
 		}
 		f.cond("gen_room_rule", "multilinereader.go checkOverflow: the condition under which no overflow handling happens", ce, []string{"cap", "offsetAppend", "soft"},
 			map[string]string{"len(mlr.buffer)": "cap", "mlr.offsetAppend": "offsetAppend", "mlr.softRecordLimit": "soft"})
+	}
+	f.note["frame_process_buffer"] = "multilinereader.go processBuffer: the whole body, statement by statement (transcribed by Model/FrameIdx.lean pbLoop / finish)"
+	f.strs["frame_process_buffer"] = nil
+	if fd := fn("input/tcplistener/multilinereader.go", "processBuffer", "multiLineReader"); fd != nil && fd.Body != nil {
+		f.strs["frame_process_buffer"] = skeleton(fd.Body.List)
+	}
+	f.note["frame_read"] = "multilinereader.go Read: the whole body"
+	f.strs["frame_read"] = nil
+	if fd := fn("input/tcplistener/multilinereader.go", "Read", "multiLineReader"); fd != nil && fd.Body != nil {
+		f.strs["frame_read"] = skeleton(fd.Body.List)
 	}
 	f.note["frame_soft_is_max_record"] = "tcplinelistener.go runConnection: newMultiLineReader(…, defs.ListenerLineBufferSize, defs.InputLogMaxRecordBytes, …)"
 	f.bool["frame_soft_is_max_record"] = nil
@@ -1922,4 +1933,42 @@ func distFacts(f *facts) {
 		}
 	}
 	f.strs["dist_cache_flush"] = fl
+}
+
+
+// ---- C12: base/logallocator.go ----
+func poolFacts(f *facts) {
+	f.note["pool_release"] = "logallocator.go Release: the whole body (transcribed by Model/Pool.lean step .release / cleared)"
+	f.strs["pool_release"] = nil
+	if fd := fn("base/logallocator.go", "Release", "LogAllocator"); fd != nil && fd.Body != nil {
+		f.strs["pool_release"] = skeleton(fd.Body.List)
+	}
+	f.note["pool_recycle"] = "logallocator.go recycleRecord: the whole body"
+	f.strs["pool_recycle"] = nil
+	if fd := fn("base/logallocator.go", "recycleRecord", "LogAllocator"); fd != nil && fd.Body != nil {
+		f.strs["pool_recycle"] = skeleton(fd.Body.List)
+	}
+	f.note["pool_new_head"] = "logallocator.go NewRecord: the first two statements (record from the pool, reference count)"
+	f.strs["pool_new_head"] = nil
+	if fd := fn("base/logallocator.go", "NewRecord", "LogAllocator"); fd != nil && fd.Body != nil && len(fd.Body.List) >= 2 {
+		f.strs["pool_new_head"] = skeleton(fd.Body.List[:2])
+	}
+	f.note["parse_unescaped_assignment"] = "syslogparser.go Parse: every assignment to record.Unescaped at the top level of the function body (none inside a branch)"
+	f.strs["parse_unescaped_assignment"] = nil
+	if fd := fn("input/syslogparser/syslogparser.go", "Parse", "syslogParser"); fd != nil && fd.Body != nil {
+		var top, nested []string
+		for _, st := range fd.Body.List {
+			if as, ok := st.(*ast.AssignStmt); ok && len(as.Lhs) == 1 && src(as.Lhs[0]) == "record.Unescaped" {
+				top = append(top, strings.Join(strings.Fields(src(st)), " "))
+				continue
+			}
+			inspect(st, func(n ast.Node) bool {
+				if as, ok := n.(*ast.AssignStmt); ok && len(as.Lhs) == 1 && src(as.Lhs[0]) == "record.Unescaped" {
+					nested = append(nested, "nested: "+strings.Join(strings.Fields(src(as)), " "))
+				}
+				return true
+			})
+		}
+		f.strs["parse_unescaped_assignment"] = append(top, nested...)
+	}
 }
